@@ -30,7 +30,9 @@ def tests_pass(cwd):
 
 def run_demo(cwd, crate, features):
     feat = f"--features {features}" if features else ""
-    rc, out = sh(f"cargo test --offline -p {crate} {feat} --test demo 2>&1 | tail -30", cwd=cwd)
+    # scpi-contrib's tests rely on workspace feature unification (alloc): run from the root without -p
+    sel = f"-p {crate}" if crate == "scpi" else ""
+    rc, out = sh(f"cargo test --offline {sel} {feat} --test demo 2>&1 | tail -30", cwd=cwd)
     ok = "test result: ok" in out and "FAILED" not in out and "error[" not in out and "error:" not in out
     return ok, out[-1500:]
 
